@@ -11,7 +11,10 @@ EXPLANATION = ('The thread skeletons (queue constructions and capacities, Thread
                'step of every thread (interference freedom included), for symbolic item count N >= 1 and capacities K1, K2 >= 1: '
                'on return the file is header + blocks 0..N-1 in order, both workers are parked at an empty queue, no step is enabled '
                'afterwards (nothing written after the return), no deadlock before it, and a variant decreases on every step (termination '
-               'under every schedule).')
+               'under every schedule).  The transition system treats queue items as values: that the array an iteration hands to the queue '
+               'is not an object other iterations overwrite (a reused buffer would be changed under the compressor by a faster producer) is an '
+               'obligation of the producer contracts (`put.item_is_not_a_buffer_reused_by_other_iterations`), which are therefore part of this check, '
+               'together with their one-put-per-block-in-block-order event obligations.')
 ASSUMPTIONS = [
     'AX-QUEUE: queue.Queue(maxsize=K) is a blocking bounded FIFO; join() returns iff unfinished_tasks == 0; get/put/task_done are atomic',
     'Thread.start runs the target; out_filehandle.write calls are atomic; non-queue statements of the workers touch only their locals (zfpy.compress_numpy is pure)',
